@@ -1,12 +1,26 @@
 (* HttpProofs.v -- theorems of C16 over the model of Http.v: for all routes, all parameter strings (byte
-   lists), any typed backend and any configuration. *)
+   lists), any typed backend and any configuration.
+
+   Layout
+     1. small facts
+     2. handle_total                      no handler type assertion fails against a typed backend
+     3. envelope_exists                   existing resource => 200, JSON, error=false
+     4. envelope_unknown_partial / envelope_unknown_delete_refuted
+     5. the whole server: serve_total, unrouted_404, serve_envelope (router + handlers, any path bytes)
+     6. get_is_readonly_http              GET handlers issue only Fetch / evaluator requests
+     7. link to Storage.v: to_storage_req, fetch_step_readonly, fetch_after_drop_same, get_is_readonly,
+        storage_backend_typed (the storage half of [backend_typed] discharged from Storage.step)
+     8. route_table_complete, every_row_has_envelope, get_handlers_construct_only_fetch (table soundness)
+     9. F9 (repaired): documentation of the old behaviour
+    10. non-vacuity: the scripted backend of the correspondence driver is typed; concrete instances *)
 Require Import List ZArith Bool String Ascii Lia.
 Import ListNotations.
 From Burrow Require Import Http.
+From Burrow Require AMap AMapProofs Eval Storage.
 Open Scope Z_scope.
 
 (* ------------------------------------------------------------------------------------------------ *)
-(* small facts                                                                                       *)
+(* 1. small facts                                                                                    *)
 (* ------------------------------------------------------------------------------------------------ *)
 
 Lemma beq_refl : forall a, beq a a = true.
@@ -14,17 +28,23 @@ Proof. induction a; simpl; auto. rewrite Z.eqb_refl; auto. Qed.
 
 Lemma beq_eq : forall a b, beq a b = true <-> a = b.
 Proof.
-  induction a; destruct b; simpl; split; intros; try congruence; auto.
+  induction a; destruct b; simpl; split; intros H; try congruence; auto.
   - apply andb_true_iff in H as [H1 H2]. apply Z.eqb_eq in H1. apply IHa in H2. congruence.
   - inversion H; subst. rewrite Z.eqb_refl. simpl. apply beq_refl.
 Qed.
+
+Lemma forallb_In : forall {A} (f : A -> bool) l x, forallb f l = true -> In x l -> f x = true.
+Proof. intros A f l x H Hin. eapply forallb_forall; eauto. Qed.
+
+Lemma all_routes_complete : forall r, In r all_routes.
+Proof. destruct r; unfold all_routes; simpl; tauto. Qed.
 
 Ltac typed_at H q :=
   let T := fresh "T" in
   pose proof (H q) as T; unfold reply_ok in T; simpl in T.
 
 (* ------------------------------------------------------------------------------------------------ *)
-(* handle_total: no handler panics against a typed backend                                           *)
+(* 2. handle_total: no handler panics against a typed backend                                        *)
 (* ------------------------------------------------------------------------------------------------ *)
 
 Theorem handle_total :
@@ -45,8 +65,8 @@ Proof.
 Qed.
 
 (* ------------------------------------------------------------------------------------------------ *)
-(* envelope_exists: an existing resource is answered 200 with a JSON object, error=false, a message   *)
-(* and the request block                                                                             *)
+(* 3. envelope_exists: an existing resource is answered 200 with a JSON object, error=false, a        *)
+(*    message and the request block                                                                  *)
 (* ------------------------------------------------------------------------------------------------ *)
 
 Theorem envelope_exists :
@@ -63,7 +83,7 @@ Proof.
     try (match goal with |- context [storage_reply b ?q] =>
            typed_at HS q; destruct (storage_reply b q) as [[]|]; simpl in *; try discriminate;
            try (eexists; reflexivity); destruct Hp as [Hp|Hp]; try discriminate; exfalso; apply Hp; reflexivity end);
-    try (destruct Hp as [Hm _]; rewrite Hm; eexists; reflexivity).
+    try (destruct Hp as [Hm ?]; rewrite Hm; eexists; reflexivity).
   - (* status *)
     destruct Hp as [st [Hst Hne]]. unfold status_of in Hst. rewrite Hst.
     pose proof (HE (param ps s_cluster) (param ps s_consumer) false) as T. rewrite Hst in T. simpl in T. rewrite T.
@@ -80,20 +100,33 @@ Proof.
 Qed.
 
 (* ------------------------------------------------------------------------------------------------ *)
-(* envelope_unknown (all routes but the two DELETEs): 404, error=true -- or status NOTFOUND with      *)
-(* error=false on the two status routes                                                              *)
+(* 4. envelope_unknown                                                                               *)
 (* ------------------------------------------------------------------------------------------------ *)
 
+(* The answer the property demands for a request that names something unknown: 404 with error=true -- or,
+   on the two status routes, 404 with status NOTFOUND (error=false). *)
+Definition unknown_answer (r : route) : outcome :=
+  if is_status_route r
+  then Resp 404 true (BJson false true true (Some 0))
+  else Resp 404 true (BJson true true true None).
+
+(* FULL STATEMENT (false for the code as it is, see envelope_unknown_delete_refuted):
+
+     Theorem envelope_unknown :
+       forall b, backend_typed b -> forall r ps reqbody cfg,
+         unknown_full r ps b cfg -> snd (handle r ps reqbody b cfg) = unknown_answer r.
+
+   What is proved carries exactly the guard that excludes the recorded finding C16:delete-unknown-group,
+   [is_delete_route r = false]: every route except the two DELETE registrations. *)
 Theorem envelope_unknown_partial :
   forall (b : backend), backend_typed b ->
   forall (r : route) (ps : params) (reqbody : Z) (cfg : tree),
-    unknown r ps b cfg ->
-    snd (handle r ps reqbody b cfg) =
-      if is_status_route r
-      then Resp 404 true (BJson false true true (Some 0))
-      else Resp 404 true (BJson true true true None).
+    is_delete_route r = false ->
+    unknown_full r ps b cfg ->
+    snd (handle r ps reqbody b cfg) = unknown_answer r.
 Proof.
-  intros b [HS HE] r ps reqbody cfg Hu.
+  intros b [HS HE] r ps reqbody cfg Hnd [Hu|[Hd _]]; [|congruence].
+  unfold unknown_answer.
   destruct r; unfold unknown in Hu; simpl in Hu; try contradiction;
     unfold handle, handle_gen, storage_fetch, h_status, h_config_detail, h_notifier_detail, err; simpl;
     try (rewrite Hu; reflexivity).
@@ -108,27 +141,123 @@ Qed.
 (* The DELETE routes answer 200 whatever the names: the property's "unknown consumer group => 404" does not
    hold for them (finding C16:delete-unknown-group; not repairable without editing the pinned test
    TestHttpServer_handleConsumerDelete, which requires the first and only storage request to be
-   StorageSetDeleteGroup, left unanswered, and a 200). *)
+   StorageSetDeleteGroup, left unanswered, and a 200).  Witness: an empty storage. *)
 Theorem envelope_unknown_delete_refuted :
-  exists (b : backend) (ps : params) (cfg : tree),
+  exists (b : backend) (ps : params) (reqbody : Z) (cfg : tree),
     backend_typed b /\
-    (forall q, sq_type q <> StorageFetchClusters -> storage_reply b q = None) /\
-    snd (handle RConsumerDelete ps 2 b cfg) = Resp 200 true (BJson false true true None).
+    unknown_full RConsumerDelete ps b cfg /\
+    snd (handle RConsumerDelete ps reqbody b cfg) = Resp 200 true (BJson false true true None) /\
+    snd (handle RConsumerDelete ps reqbody b cfg) <> unknown_answer RConsumerDelete.
 Proof.
-  exists (world_backend [] 0 true), [(s_cluster, pb "nocluster"); (s_consumer, pb "nogroup")], (Node KNil).
-  split; [split|split].
+  exists (world_backend [] 0 true), [(s_cluster, pb "nocluster"); (s_consumer, pb "nogroup")], 2, (Node KNil).
+  split; [split|split; [|split]].
   - intro q. unfold reply_ok, world_backend, world_storage; simpl.
     destruct (sq_type q =? 5) eqn:E5; simpl; auto.
     destruct ((sq_type q =? 6) || (sq_type q =? 7) || (sq_type q =? 11)); auto.
     destruct (sq_type q =? 9); auto. destruct (sq_type q =? 8); auto.
   - intros. reflexivity.
-  - intros q Hq. unfold world_backend, world_storage; simpl.
-    destruct (sq_type q =? 5) eqn:E5; [apply Z.eqb_eq in E5; contradiction|]. reflexivity.
+  - right. split; reflexivity.
   - reflexivity.
+  - vm_compute. discriminate.
 Qed.
 
 (* ------------------------------------------------------------------------------------------------ *)
-(* get_is_readonly_http                                                                              *)
+(* 5. the whole server                                                                               *)
+(* ------------------------------------------------------------------------------------------------ *)
+
+Lemma route_table_ok_rows :
+  forall tbl opts, route_table_ok tbl opts = true ->
+  forall row, In row tbl -> exists r, route_of_row row = Some r /\ row_is r row = true.
+Proof.
+  intros tbl opts H row Hin. unfold route_table_ok in H.
+  repeat (apply andb_true_iff in H; destruct H as [H ?]).
+  match goal with Hr : forallb (fun row => match route_of_row row with Some _ => true | None => false end) tbl = true |- _ =>
+    pose proof (forallb_In _ _ row Hr Hin) as Hrow end.
+  cbv beta in Hrow.
+  destruct (route_of_row row) as [r|] eqn:E; [|discriminate].
+  exists r. split; auto. unfold route_of_row in E. apply find_some in E as [_ E]. exact E.
+Qed.
+
+Lemma compile_table_routes :
+  forall tbl opts, route_table_ok tbl opts = true ->
+  forall brw, In brw (compile_table tbl) -> exists r, br_route brw = Some r.
+Proof.
+  intros tbl opts H brw Hin. unfold compile_table in Hin. apply in_flat_map in Hin as [row [Hrow Hb]].
+  destruct (route_table_ok_rows _ _ H _ Hrow) as [r [Hr _]].
+  destruct row as [m p segs h reg|]; simpl in Hb; [|contradiction].
+  destruct Hb as [Hb|[]]. subst brw. simpl. exists r. exact Hr.
+Qed.
+
+Lemma dispatch_rows_in :
+  forall tbl method segs row ps, dispatch_rows tbl method segs = Some (row, ps) -> In row tbl.
+Proof.
+  induction tbl as [|x tbl IH]; simpl; intros method segs row ps H; [discriminate|].
+  destruct (beq (br_method x) method).
+  - destruct (match_segs (br_segs x) segs).
+    + inversion H; subst. left; reflexivity.
+    + right. eapply IH; eauto.
+  - right. eapply IH; eauto.
+Qed.
+
+Lemma dispatch_in :
+  forall tbl method path row ps, dispatch tbl method path = Some (row, ps) -> In row tbl.
+Proof.
+  intros tbl method path row ps H. unfold dispatch in H. destruct path as [|c rest]; [discriminate|].
+  destruct (c =? slash); [|discriminate]. eapply dispatch_rows_in; eauto.
+Qed.
+
+(* For every method and every path (arbitrary byte strings) the server answers without a panic, provided
+   the regenerated route table passes [route_table_ok] and the backend keeps its contract. *)
+Theorem serve_total :
+  forall tbl opts, route_table_ok tbl opts = true ->
+  forall (b : backend), backend_typed b ->
+  forall (method path : bytes) (reqbody : Z) (cfg : tree),
+    snd (serve (compile_table tbl) method path reqbody b cfg) <> Crash.
+Proof.
+  intros tbl opts Htbl b Hb method path reqbody cfg. unfold serve.
+  destruct (dispatch (compile_table tbl) method path) as [[row ps]|] eqn:E; [|simpl; discriminate].
+  apply dispatch_in in E. destruct (compile_table_routes _ _ Htbl _ E) as [r Hr]. rewrite Hr.
+  apply handle_total; assumption.
+Qed.
+
+(* A request that matches no registration and is handed to NotFound is answered 404 with error=true and
+   reaches no backend. *)
+Theorem unrouted_404 :
+  forall (tbl : list brow) (method path : bytes) (reqbody : Z) (b : backend) (cfg : tree),
+    dispatch tbl method path = None ->
+    serve tbl method path reqbody b cfg = ([], Resp 404 false (BJson true true false None)).
+Proof. intros tbl method path reqbody b cfg H. unfold serve. rewrite H. reflexivity. Qed.
+
+(* The envelope rules at the level of the server: whatever bytes the path is made of, if it matches a
+   registration then the three handler theorems apply to the parameters httprouter extracted. *)
+Theorem serve_envelope :
+  forall tbl opts, route_table_ok tbl opts = true ->
+  forall (b : backend), backend_typed b ->
+  forall (method path : bytes) (reqbody : Z) (cfg : tree),
+    match dispatch (compile_table tbl) method path with
+    | None => serve (compile_table tbl) method path reqbody b cfg = ([], default_handler)
+    | Some (row, ps) =>
+        exists r, br_route row = Some r /\
+          serve (compile_table tbl) method path reqbody b cfg = handle r ps reqbody b cfg /\
+          snd (handle r ps reqbody b cfg) <> Crash /\
+          (is_v3 r = true -> present r ps reqbody b cfg ->
+             exists st, snd (handle r ps reqbody b cfg) = Resp 200 true (BJson false true true st)) /\
+          (is_delete_route r = false -> unknown_full r ps b cfg ->
+             snd (handle r ps reqbody b cfg) = unknown_answer r)
+    end.
+Proof.
+  intros tbl opts Htbl b Hb method path reqbody cfg.
+  destruct (dispatch (compile_table tbl) method path) as [[row ps]|] eqn:E.
+  - pose proof (dispatch_in _ _ _ _ _ E) as Hin. destruct (compile_table_routes _ _ Htbl _ Hin) as [r Hr].
+    exists r. split; [exact Hr|]. split; [unfold serve; rewrite E, Hr; reflexivity|].
+    split; [apply handle_total; assumption|]. split.
+    + intros Hv Hp. eapply envelope_exists; eauto.
+    + intros Hd Hu. eapply envelope_unknown_partial; eauto.
+  - apply unrouted_404. exact E.
+Qed.
+
+(* ------------------------------------------------------------------------------------------------ *)
+(* 6. get_is_readonly_http                                                                           *)
 (* ------------------------------------------------------------------------------------------------ *)
 
 Definition issued_readonly (i : issued) : Prop :=
@@ -153,8 +282,7 @@ Proof.
 Qed.
 
 (* A GET handler sends the backend only Fetch-type storage requests and evaluator requests -- never a
-   Set/Delete/Clear request.  (HTTP half of "reads never change what later reads return"; that Fetch and
-   evaluator requests leave storage unchanged up to expiry is the storage model's half.) *)
+   Set/Delete/Clear request. *)
 Theorem get_is_readonly_http :
   forall (r : route) (ps : params) (reqbody : Z) (b : backend) (cfg : tree),
     is_get r = true ->
@@ -166,14 +294,363 @@ Proof.
     repeat constructor.
 Qed.
 
-(* ... and the same at the level of the source: what [request_types_ok] establishes for the regenerated
-   per-handler request-type table *)
-Lemma forallb_In : forall {A} (f : A -> bool) l x, forallb f l = true -> In x l -> f x = true.
-Proof. intros. eapply forallb_forall; eauto. Qed.
+(* ------------------------------------------------------------------------------------------------ *)
+(* 7. link to the storage model (Storage.v)                                                          *)
+(* ------------------------------------------------------------------------------------------------ *)
 
-Lemma all_routes_complete : forall r, In r all_routes.
-Proof. destruct r; unfold all_routes; simpl; tauto. Qed.
+Definition storage_fetch_req (r : Storage.req) : bool :=
+  match r with
+  | Storage.FetchClusters | Storage.FetchConsumers _ | Storage.FetchTopics _ | Storage.FetchConsumer _ _
+  | Storage.FetchTopic _ _ | Storage.FetchConsumersForTopic _ _ => true
+  | _ => false
+  end.
 
+(* the only way a Fetch request changes the storage state: FetchConsumer finds the group expired (its last
+   commit is older than expire-group at the time of the request), removes it and answers nil *)
+Definition drops_expired_group (cf : Storage.config) (now : Z) (st st' : Storage.state) (c g : Z) : Prop :=
+  exists cl grp,
+    AMap.get st c = Some cl /\ AMap.get (Storage.cl_consumer cl) g = Some grp /\
+    Storage.expired cf now (Storage.g_last grp) = true /\
+    st' = AMap.set st c (Storage.mkCluster (Storage.cl_broker cl) (AMap.remove (Storage.cl_consumer cl) g)).
+
+(* Storage.step on any Fetch request leaves the state as it is, except for dropping a group that had
+   already expired. *)
+Theorem fetch_step_readonly :
+  forall cf now st r st' rep,
+    storage_fetch_req r = true ->
+    Storage.step cf now st r = Storage.Done st' rep ->
+    st' = st \/ (exists c g, r = Storage.FetchConsumer c g /\ rep = Storage.RNil /\ drops_expired_group cf now st st' c g).
+Proof.
+  intros cf now st r st' rep Hf Hs.
+  destruct r; try discriminate Hf; simpl in Hs.
+  - inversion Hs; auto.
+  - destruct (AMap.get st c); inversion Hs; auto.
+  - destruct (AMap.get st c); inversion Hs; auto.
+  - unfold Storage.fetch_consumer in Hs.
+    destruct (AMap.get st c) as [cl|] eqn:Ec; [|inversion Hs; auto].
+    destruct (AMap.get (Storage.cl_consumer cl) g) as [grp|] eqn:Eg; [|inversion Hs; auto].
+    destruct (Storage.expired cf now (Storage.g_last grp)) eqn:Ee.
+    + inversion Hs; subst. right. exists c, g. split; [reflexivity|]. split; [reflexivity|].
+      exists cl, grp. auto.
+    + destruct (Storage.fetch_topics_lags _ _); inversion Hs; auto.
+  - unfold Storage.fetch_topic in Hs.
+    destruct (AMap.get st c) as [cl|]; [|inversion Hs; auto].
+    destruct (AMap.get (Storage.cl_broker cl) t); inversion Hs; auto.
+  - unfold Storage.fetch_consumers_for_topic in Hs.
+    destruct (AMap.get st c); inversion Hs; auto.
+Qed.
+
+(* ... and what later reads return: after group g of cluster c has been dropped, every Fetch request that is
+   not a listing of that cluster's groups and not about that group is answered exactly as before (at any
+   later time); the cluster list holds the same names. *)
+Definition reply_of_step (o : Storage.outcome) : option Storage.reply :=
+  match o with Storage.Done _ rep => Some rep | Storage.Crashed => None end.
+
+Definition about_dropped (c g : Z) (r : Storage.req) : bool :=
+  match r with
+  | Storage.FetchClusters => true                       (* same names, possibly another order: see below *)
+  | Storage.FetchConsumers c' => c' =? c
+  | Storage.FetchConsumersForTopic c' _ => c' =? c
+  | Storage.FetchConsumer c' g' => (c' =? c) && (g' =? g)
+  | _ => false
+  end.
+
+Lemma get_after_drop :
+  forall (st : Storage.state) c cl' c',
+    AMap.get (AMap.set st c cl') c' = if c =? c' then Some cl' else AMap.get st c'.
+Proof.
+  intros st c cl' c'. destruct (c =? c') eqn:E.
+  - apply Z.eqb_eq in E; subst. apply AMapProofs.get_set_eq.
+  - apply Z.eqb_neq in E. apply AMapProofs.get_set_neq. exact E.
+Qed.
+
+Theorem fetch_after_drop_same :
+  forall cf now st st' c g,
+    drops_expired_group cf now st st' c g ->
+    forall r now2,
+      storage_fetch_req r = true -> about_dropped c g r = false ->
+      reply_of_step (Storage.step cf now2 st' r) = reply_of_step (Storage.step cf now2 st r).
+Proof.
+  intros cf now st st' c g [cl [grp [Hc [Hg [He Hst']]]]] r now2 Hf Ha. subst st'.
+  destruct r; try discriminate Hf; cbn [about_dropped] in Ha; try discriminate Ha; cbn [Storage.step].
+  - (* FetchConsumers c0, c0 <> c *)
+    rewrite get_after_drop, Z.eqb_sym, Ha. destruct (AMap.get st c0); reflexivity.
+  - (* FetchTopics *)
+    rewrite get_after_drop. destruct (c =? c0) eqn:E; [|destruct (AMap.get st c0); reflexivity].
+    apply Z.eqb_eq in E; subst c0. rewrite Hc. reflexivity.
+  - (* FetchConsumer c0 g0, not (c0 = c /\ g0 = g) *)
+    unfold Storage.fetch_consumer. rewrite get_after_drop.
+    destruct (c =? c0) eqn:E.
+    + apply Z.eqb_eq in E; subst c0. rewrite Hc. cbn [Storage.cl_consumer Storage.cl_broker].
+      rewrite Z.eqb_refl in Ha. cbn [andb] in Ha. apply Z.eqb_neq in Ha.
+      rewrite AMapProofs.get_remove_neq by congruence.
+      destruct (AMap.get (Storage.cl_consumer cl) g0) as [grp0|]; [|reflexivity].
+      destruct (Storage.expired cf now2 (Storage.g_last grp0)); [reflexivity|].
+      destruct (Storage.fetch_topics_lags _ _); reflexivity.
+    + destruct (AMap.get st c0) as [cl0|]; [|reflexivity].
+      destruct (AMap.get (Storage.cl_consumer cl0) g0) as [grp0|]; [|reflexivity].
+      destruct (Storage.expired cf now2 (Storage.g_last grp0)); [reflexivity|].
+      destruct (Storage.fetch_topics_lags _ _); reflexivity.
+  - (* FetchTopic *)
+    unfold Storage.fetch_topic. rewrite get_after_drop.
+    destruct (c =? c0) eqn:E.
+    + apply Z.eqb_eq in E; subst c0. rewrite Hc. cbn [Storage.cl_broker].
+      destruct (AMap.get (Storage.cl_broker cl) t); reflexivity.
+    + destruct (AMap.get st c0) as [cl0|]; [|reflexivity].
+      destruct (AMap.get (Storage.cl_broker cl0) t); reflexivity.
+  - (* FetchConsumersForTopic c0, c0 <> c *)
+    unfold Storage.fetch_consumers_for_topic. rewrite get_after_drop, Z.eqb_sym, Ha.
+    destruct (AMap.get st c0); reflexivity.
+Qed.
+
+Theorem cluster_list_after_drop :
+  forall cf now st st' c g,
+    drops_expired_group cf now st st' c g ->
+    forall x, In x (AMap.keys st') <-> In x (AMap.keys st).
+Proof.
+  intros cf now st st' c g [cl [grp [Hc [_ [_ Hst']]]]] x. subst st'.
+  rewrite <- !AMapProofs.get_in_keys. rewrite get_after_drop.
+  destruct (c =? x) eqn:E; [|tauto].
+  apply Z.eqb_eq in E; subst x. rewrite Hc. split; discriminate.
+Qed.
+
+(* FetchConsumer never panics in the storage model (since /repo 54faa50 guards both index expressions of
+   fetchConsumer's lag loop; see design_notes/MODEL_CHANGES.md) *)
+Lemma add_lag_some : forall r cp, exists cp', Storage.add_lag r cp = Some cp'.
+Proof.
+  intros r cp. unfold Storage.add_lag.
+  destruct (Eval.cp_offsets cp) as [|o0 orest]; [eexists; reflexivity|].
+  destruct (Storage.somes r) as [|b0 brest]; [eexists; reflexivity|].
+  destruct (last (o0 :: orest) None); eexists; reflexivity.
+Qed.
+
+Lemma add_lags_some : forall tl cps i, exists l, Storage.add_lags tl i cps = Some l.
+Proof.
+  intros tl cps. induction cps as [|cp rest IH]; intro i; cbn [Storage.add_lags]; [eexists; reflexivity|].
+  destruct (IH (S i)) as [rest' Hr]. rewrite Hr.
+  destruct (nth_error tl i) as [r|]; [|eexists; reflexivity].
+  destruct (add_lag_some r cp) as [cp' Hc]. rewrite Hc. eexists; reflexivity.
+Qed.
+
+Lemma fetch_topics_lags_some : forall broker tops, exists l, Storage.fetch_topics_lags broker tops = Some l.
+Proof.
+  intros broker tops. induction tops as [|[t cps] rest IH]; cbn [Storage.fetch_topics_lags]; [eexists; reflexivity|].
+  destruct IH as [rest' Hr]. rewrite Hr.
+  destruct (AMap.get broker t) as [tl|]; [|eexists; reflexivity].
+  destruct (add_lags_some tl cps 0%nat) as [l Hl]. rewrite Hl. eexists; reflexivity.
+Qed.
+
+Theorem fetch_consumer_no_crash :
+  forall cf now st c g, Storage.fetch_consumer cf now st c g <> Storage.Crashed.
+Proof.
+  intros cf now st c g. unfold Storage.fetch_consumer.
+  destruct (AMap.get st c) as [cl|]; [|discriminate].
+  destruct (AMap.get (Storage.cl_consumer cl) g) as [grp|]; [|discriminate].
+  destruct (Storage.expired cf now (Storage.g_last grp)); [discriminate|].
+  match goal with |- context [Storage.fetch_topics_lags ?b ?t] => destruct (fetch_topics_lags_some b t) as [l Hl]; rewrite Hl end.
+  discriminate.
+Qed.
+
+Section StorageLink.
+  (* interning of names (the storage model keys its maps by interned names; any function will do) *)
+  Variable intern : bytes -> Z.
+  Variable name_of : Z -> bytes.
+
+  (* protocol.StorageRequest -> the request of the storage model (inmemory.go requestWorker's switch) *)
+  Definition to_storage_req (q : sreq) : option Storage.req :=
+    let c := intern (sq_cluster q) in
+    let g := intern (sq_group q) in
+    let t := intern (sq_topic q) in
+    let ty := sq_type q in
+    if ty =? 3 then Some (Storage.DeleteTopic c t)
+    else if ty =? 4 then Some (Storage.DeleteGroup c g t)
+    else if ty =? 5 then Some Storage.FetchClusters
+    else if ty =? 6 then Some (Storage.FetchConsumers c)
+    else if ty =? 7 then Some (Storage.FetchTopics c)
+    else if ty =? 8 then Some (Storage.FetchConsumer c g)
+    else if ty =? 9 then Some (Storage.FetchTopic c t)
+    else if ty =? 10 then Some (Storage.ClearConsumerOwners c g)
+    else if ty =? 11 then Some (Storage.FetchConsumersForTopic c t)
+    else None.                      (* the offset / owner updates carry fields the HTTP layer never sets *)
+
+  Lemma fetch_type_to_storage :
+    forall q, is_fetch_type (sq_type q) = true ->
+      exists sr, to_storage_req q = Some sr /\ storage_fetch_req sr = true.
+  Proof.
+    intros q H. unfold is_fetch_type in H. unfold to_storage_req.
+    repeat (apply orb_true_iff in H; destruct H as [H|H]); apply Z.eqb_eq in H; rewrite H; simpl; eexists; split; reflexivity.
+  Qed.
+
+  (* the storage request the evaluator sends for an evaluator request (evaluator/caching.go
+     evaluateConsumerStatus: StorageFetchConsumer for the same cluster and group) *)
+  Definition eval_storage_req (c g : bytes) : sreq := mk_sreq StorageFetchConsumer c g [].
+
+  Definition step_readonly (sr : Storage.req) : Prop :=
+    forall cf now st st' rep,
+      Storage.step cf now st sr = Storage.Done st' rep ->
+      st' = st \/ (exists c g, sr = Storage.FetchConsumer c g /\ rep = Storage.RNil /\ drops_expired_group cf now st st' c g).
+
+  (* Read requests never change what later reads return, apart from dropping groups that had already
+     expired: every request a GET handler sends to the backend -- directly, or through the evaluator --
+     is a Fetch request of the storage model, and Storage.step on it leaves the state unchanged or drops one
+     group whose last commit was already older than expire-group. *)
+  Theorem get_is_readonly :
+    forall (r : route) (ps : params) (reqbody : Z) (b : backend) (cfg : tree),
+      is_get r = true ->
+      Forall (fun i =>
+                let q := match i with IStorage q => q | IEval c g _ => eval_storage_req c g end in
+                exists sr, to_storage_req q = Some sr /\ storage_fetch_req sr = true /\ step_readonly sr)
+             (fst (handle r ps reqbody b cfg)).
+  Proof.
+    intros r ps reqbody b cfg Hg.
+    pose proof (get_is_readonly_http r ps reqbody b cfg Hg) as H.
+    eapply Forall_impl; [|exact H].
+    intros i Hi. cbv zeta.
+    assert (Hq : is_fetch_type (sq_type (match i with IStorage q => q | IEval c g _ => eval_storage_req c g end)) = true).
+    { destruct i; [exact Hi|reflexivity]. }
+    destruct (fetch_type_to_storage _ Hq) as [sr [H1 H2]].
+    exists sr. split; [exact H1|]. split; [exact H2|].
+    intros cf now st st' rep Hs. eapply fetch_step_readonly; eauto.
+  Qed.
+
+  (* ---- the storage half of [backend_typed], from the reply constructors of Storage.step ---- *)
+
+  Definition reply_of (rep : Storage.reply) : option reply_value :=
+    match rep with
+    | Storage.RNil => None
+    | Storage.RStrings l => Some (RStrings (map name_of l))
+    | Storage.RInts l => Some (RInts l)
+    | Storage.RConsumer _ => Some (RTopics 0)
+    | Storage.RNone => Some ROther          (* no reply is ever sent; no handler waits for one *)
+    end.
+
+  (* what arrives on the reply channel of request q when storage is in state st at time now; a request the
+     storage worker would panic on (Storage.Crashed: F6(iii), a consumer partition index beyond the broker's
+     partition list) is an ill-typed reply here *)
+  Definition storage_backend_reply (cf : Storage.config) (now : Z) (st : Storage.state) (q : sreq) : option reply_value :=
+    match to_storage_req q with
+    | Some sr => match Storage.step cf now st sr with
+                 | Storage.Done _ rep => reply_of rep
+                 | Storage.Crashed => Some ROther
+                 end
+    | None => Some ROther
+    end.
+
+  Definition storage_backend (cf : Storage.config) (now : Z) (st : Storage.state)
+             (ev : bytes -> bytes -> bool -> option gstatus) (ready : bool) : backend :=
+    mk_backend (storage_backend_reply cf now st) ev ready.
+
+  (* ASSUMED about storage: FetchConsumer does not panic in this state (C08 / F6(iii) territory);
+     ASSUMED about the evaluator: [eval_ok] (a non-nil status whose float32 field is finite).
+     Everything else of [backend_typed] follows from the constructors Storage.step answers with. *)
+  Theorem storage_backend_typed :
+    forall cf now st ev ready,
+      (forall c g, Storage.fetch_consumer cf now st c g <> Storage.Crashed) ->
+      (forall c g a, eval_ok (ev c g a) = true) ->
+      backend_typed (storage_backend cf now st ev ready).
+  Proof.
+    intros cf now st ev ready Hnc Hev. split; [|exact Hev].
+    intros [ty c g t]. unfold storage_backend, storage_backend_reply, to_storage_req, reply_ok. cbn [storage_reply sq_type sq_cluster sq_group sq_topic].
+    destruct (ty =? 5) eqn:E5.
+    { apply Z.eqb_eq in E5; subst ty. reflexivity. }
+    destruct (ty =? 6) eqn:E6.
+    { apply Z.eqb_eq in E6; subst ty. simpl. destruct (AMap.get st (intern c)); reflexivity. }
+    destruct (ty =? 7) eqn:E7.
+    { apply Z.eqb_eq in E7; subst ty. simpl. destruct (AMap.get st (intern c)); reflexivity. }
+    destruct (ty =? 11) eqn:E11.
+    { apply Z.eqb_eq in E11; subst ty. simpl. unfold Storage.fetch_consumers_for_topic.
+      destruct (AMap.get st (intern c)); reflexivity. }
+    destruct (ty =? 9) eqn:E9.
+    { apply Z.eqb_eq in E9; subst ty. simpl. unfold Storage.fetch_topic.
+      destruct (AMap.get st (intern c)) as [cl|]; [|reflexivity].
+      destruct (AMap.get (Storage.cl_broker cl) (intern t)); reflexivity. }
+    destruct (ty =? 8) eqn:E8.
+    { apply Z.eqb_eq in E8; subst ty. simpl. specialize (Hnc (intern c) (intern g)).
+      destruct (Storage.fetch_consumer cf now st (intern c) (intern g)) as [s' rep|] eqn:Ef; [|contradiction].
+      unfold Storage.fetch_consumer in Ef.
+      destruct (AMap.get st (intern c)) as [cl|]; [|inversion Ef; reflexivity].
+      destruct (AMap.get (Storage.cl_consumer cl) (intern g)) as [grp|]; [|inversion Ef; reflexivity].
+      destruct (Storage.expired cf now (Storage.g_last grp)); [inversion Ef; reflexivity|].
+      destruct (Storage.fetch_topics_lags _ _); inversion Ef; reflexivity. }
+    simpl. reflexivity.
+  Qed.
+
+  (* ... and since FetchConsumer cannot panic in the storage model, only the evaluator half remains assumed *)
+  Theorem storage_backend_typed_any_state :
+    forall cf now st ev ready,
+      (forall c g a, eval_ok (ev c g a) = true) ->
+      backend_typed (storage_backend cf now st ev ready).
+  Proof.
+    intros cf now st ev ready Hev. apply storage_backend_typed; [|exact Hev].
+    intros c g. apply fetch_consumer_no_crash.
+  Qed.
+End StorageLink.
+
+(* ------------------------------------------------------------------------------------------------ *)
+(* 8. the regenerated tables                                                                         *)
+(* ------------------------------------------------------------------------------------------------ *)
+
+Lemma count_rows_pos : forall f tbl, (count_rows f tbl > 0)%nat -> exists row, In row tbl /\ f row = true.
+Proof.
+  unfold count_rows. intros f tbl H. destruct (filter f tbl) as [|row l] eqn:E; simpl in H; [lia|].
+  exists row. apply filter_In. rewrite E. left; reflexivity.
+Qed.
+
+Theorem route_table_complete :
+  forall tbl opts, route_table_ok tbl opts = true ->
+    (* every documented /v3 pattern is registered, with its method, to the Go handler the model describes *)
+    (forall m p, In (m, p) documented_v3 ->
+       exists r segs reg, is_v3 r = true /\ route_method r = m /\ route_pattern r = p /\
+                          In (RtRow m p segs (route_handler r) reg) tbl) /\
+    (* every modelled registration is in the table exactly once, and nothing else claims its method+pattern *)
+    (forall r, count_rows (row_is r) tbl = 1%nat /\ count_rows (row_same_path r) tbl = 1%nat) /\
+    (* every row of the table has a model case *)
+    (forall row, In row tbl -> exists r, route_of_row row = Some r /\ row_is r row = true) /\
+    (* no router option other than NotFound *)
+    (forall o, In o opts -> fst o = "NotFound"%string).
+Proof.
+  intros tbl opts H. pose proof (route_table_ok_rows _ _ H) as Hrows'. unfold route_table_ok in H.
+  repeat (apply andb_true_iff in H; destruct H as [H ?]).
+  rename H0 into Hopts, H1 into Hall2, H2 into Hdoc, H3 into Hrows, H4 into Hcnt.
+  assert (Hone : forall r, count_rows (row_is r) tbl = 1%nat /\ count_rows (row_same_path r) tbl = 1%nat).
+  { intro r. pose proof (forallb_In _ _ r Hcnt (all_routes_complete r)) as Hr. cbv beta in Hr.
+    apply andb_true_iff in Hr as [Hr1 Hr2]. apply Nat.eqb_eq in Hr1. apply Nat.eqb_eq in Hr2. auto. }
+  split; [|split; [|split]].
+  - intros m p Hin. pose proof (forallb_In _ _ (m, p) Hdoc Hin) as Hd. cbv beta in Hd.
+    apply existsb_exists in Hd as [r [_ Hr]].
+    apply andb_true_iff in Hr as [Hr Hp]. apply andb_true_iff in Hr as [Hv Hm].
+    apply String.eqb_eq in Hm. apply String.eqb_eq in Hp. cbn [fst snd] in Hm, Hp.
+    destruct (count_rows_pos (row_is r) tbl) as [row [Hrow Hris]]; [destruct (Hone r) as [Ho _]; rewrite Ho; lia|].
+    destruct row as [m' p' segs h reg|]; simpl in Hris; [|discriminate].
+    apply andb_true_iff in Hris as [Hris Hh]. apply andb_true_iff in Hris as [Hm' Hp'].
+    apply String.eqb_eq in Hm'. apply String.eqb_eq in Hp'. apply String.eqb_eq in Hh. subst.
+    exists r, segs, reg. repeat split; auto.
+  - exact Hone.
+  - exact Hrows'.
+  - intros o Hin. pose proof (forallb_In _ _ o Hopts Hin) as Ho. cbv beta in Ho. apply String.eqb_eq in Ho. exact Ho.
+Qed.
+
+(* every row of a table that passes the check is served by a handler for which the envelope lemmas hold *)
+Theorem every_row_has_envelope :
+  forall tbl opts, route_table_ok tbl opts = true ->
+  forall row, In row tbl ->
+    exists r, route_of_row row = Some r /\
+      forall (b : backend), backend_typed b -> forall (ps : params) (reqbody : Z) (cfg : tree),
+        snd (handle r ps reqbody b cfg) <> Crash /\
+        (is_v3 r = true -> present r ps reqbody b cfg ->
+           exists st, snd (handle r ps reqbody b cfg) = Resp 200 true (BJson false true true st)) /\
+        (is_delete_route r = false -> unknown_full r ps b cfg ->
+           snd (handle r ps reqbody b cfg) = unknown_answer r).
+Proof.
+  intros tbl opts H row Hin. destruct (route_table_ok_rows _ _ H _ Hin) as [r [Hr _]].
+  exists r. split; [exact Hr|]. intros b Hb ps reqbody cfg. split; [apply handle_total; assumption|]. split.
+  - intros Hv Hp. eapply envelope_exists; eauto.
+  - intros Hd Hu. eapply envelope_unknown_partial; eauto.
+Qed.
+
+(* what [request_types_ok] establishes for the regenerated per-handler request-type table: the Go handler of
+   every GET registration constructs only StorageFetch* request types, and (except /metrics, which belongs to
+   C17) exactly the types the model issues *)
 Theorem get_handlers_construct_only_fetch :
   forall hr, request_types_ok hr = true ->
   forall r, is_get r = true ->
@@ -195,54 +672,8 @@ Proof.
 Qed.
 
 (* ------------------------------------------------------------------------------------------------ *)
-(* route_table_complete                                                                              *)
-(* ------------------------------------------------------------------------------------------------ *)
-
-Lemma count_rows_pos : forall f tbl, (count_rows f tbl > 0)%nat -> exists row, In row tbl /\ f row = true.
-Proof.
-  unfold count_rows. intros f tbl H. destruct (filter f tbl) as [|row l] eqn:E; simpl in H; [lia|].
-  exists row. apply filter_In. rewrite E. left; reflexivity.
-Qed.
-
-Theorem route_table_complete :
-  forall tbl opts, route_table_ok tbl opts = true ->
-    (* every documented /v3 pattern is registered, with its method, to the Go handler the model describes *)
-    (forall m p, In (m, p) documented_v3 ->
-       exists r segs reg, is_v3 r = true /\ route_method r = m /\ route_pattern r = p /\
-                          In (RtRow m p segs (route_handler r) reg) tbl) /\
-    (* every modelled registration is in the table exactly once *)
-    (forall r, count_rows (row_is r) tbl = 1%nat) /\
-    (* every row of the table has a model case *)
-    (forall row, In row tbl -> exists r, route_of_row row = Some r /\ row_is r row = true) /\
-    (* no router option other than NotFound *)
-    (forall o, In o opts -> fst o = "NotFound"%string).
-Proof.
-  intros tbl opts H. unfold route_table_ok in H.
-  repeat (apply andb_true_iff in H; destruct H as [H ?]).
-  rename H0 into Hopts, H1 into Hall2, H2 into Hdoc, H3 into Hrows, H4 into Hcnt.
-  assert (Hone : forall r, count_rows (row_is r) tbl = 1%nat).
-  { intro r. pose proof (forallb_In _ _ r Hcnt (all_routes_complete r)) as Hr. cbv beta in Hr.
-    apply andb_true_iff in Hr as [Hr _]. apply Nat.eqb_eq in Hr. exact Hr. }
-  split; [|split; [|split]].
-  - intros m p Hin. pose proof (forallb_In _ _ (m, p) Hdoc Hin) as Hd. cbv beta in Hd.
-    apply existsb_exists in Hd as [r [_ Hr]].
-    apply andb_true_iff in Hr as [Hr Hp]. apply andb_true_iff in Hr as [Hv Hm].
-    apply String.eqb_eq in Hm. apply String.eqb_eq in Hp. cbn [fst snd] in Hm, Hp.
-    destruct (count_rows_pos (row_is r) tbl) as [row [Hrow Hris]]; [rewrite Hone; lia|].
-    destruct row as [m' p' segs h reg|]; simpl in Hris; [|discriminate].
-    apply andb_true_iff in Hris as [Hris Hh]. apply andb_true_iff in Hris as [Hm' Hp'].
-    apply String.eqb_eq in Hm'. apply String.eqb_eq in Hp'. apply String.eqb_eq in Hh. subst.
-    exists r, segs, reg. repeat split; auto.
-  - exact Hone.
-  - intros row Hin. pose proof (forallb_In _ _ row Hrows Hin) as Hr. cbv beta in Hr.
-    destruct (route_of_row row) as [r|] eqn:E; [|discriminate].
-    exists r. split; auto. unfold route_of_row in E. apply find_some in E as [_ E]. exact E.
-  - intros o Hin. pose proof (forallb_In _ _ o Hopts Hin) as Ho. cbv beta in Ho. apply String.eqb_eq in Ho. exact Ho.
-Qed.
-
-(* ------------------------------------------------------------------------------------------------ *)
-(* F9 (repaired in /repo by "fix: config detail endpoints treated dotted names as configured          *)
-(* modules"): documentation of the old behaviour                                                     *)
+(* 9. F9 (repaired in /repo by commit cc4f2f8, config detail endpoints treated dotted names as        *)
+(*    configured modules): documentation of the old behaviour                                        *)
 (* ------------------------------------------------------------------------------------------------ *)
 
 Definition f9_cfg : tree :=
@@ -266,7 +697,7 @@ Example dotted_module_name_now_404 :
 Proof. vm_compute. reflexivity. Qed.
 
 (* ------------------------------------------------------------------------------------------------ *)
-(* the hypotheses are satisfiable: the scripted backend of the correspondence driver is typed         *)
+(* 10. the hypotheses are satisfiable                                                                *)
 (* ------------------------------------------------------------------------------------------------ *)
 
 Definition world_finite (w : world) : bool :=
@@ -274,32 +705,34 @@ Definition world_finite (w : world) : bool :=
 
 Lemma find_cluster_in : forall w c x, find_cluster w c = Some x -> In x w.
 Proof.
-  induction w; simpl; intros; [discriminate|]. destruct (beq (wc_name a) c); [inversion H; auto|eauto].
+  induction w as [|a w IH]; simpl; intros c x H; [discriminate|].
+  destruct (beq (wc_name a) c); [inversion H; auto|eauto].
 Qed.
 
 Lemma assoc_b_in : forall {A} (l : list (bytes * A)) k v, assoc_b l k = Some v -> exists n, In (n, v) l.
 Proof.
-  induction l as [|[n x] l]; simpl; intros; [discriminate|].
-  destruct (beq n k); [inversion H; subst; eauto|]. destruct (IHl _ _ H) as [m Hm]. eauto.
+  induction l as [|[n x] l IH]; simpl; intros k v H; [discriminate|].
+  destruct (beq n k); [inversion H; subst; eauto|]. destruct (IH _ _ H) as [m Hm]. eauto.
 Qed.
 
 Theorem world_backend_typed :
   forall w ready, world_finite w = true -> backend_typed (world_backend w 0 ready).
 Proof.
   intros w ready Hf. split.
-  - intro q. unfold reply_ok, world_backend, world_storage; simpl.
-    destruct (sq_type q =? 5) eqn:E5; simpl; auto.
-    destruct (find_cluster w (sq_cluster q)) as [c|].
-    + destruct (sq_type q =? 7) eqn:E7; [apply Z.eqb_eq in E7; rewrite E7; reflexivity|].
-      destruct (sq_type q =? 6) eqn:E6; [apply Z.eqb_eq in E6; rewrite E6; reflexivity|].
-      destruct (sq_type q =? 9) eqn:E9.
-      { apply Z.eqb_eq in E9; rewrite E9; simpl. destruct (assoc_b _ _); reflexivity. }
-      destruct (sq_type q =? 11) eqn:E11; [apply Z.eqb_eq in E11; rewrite E11; reflexivity|].
-      destruct (sq_type q =? 8) eqn:E8.
-      { apply Z.eqb_eq in E8; rewrite E8; simpl. destruct (assoc_b _ _); reflexivity. }
+  - intros [ty c g t]. unfold reply_ok, world_backend, world_storage. cbn [storage_reply sq_type sq_cluster sq_group sq_topic].
+    replace (0 =? 1) with false by reflexivity. replace (0 =? 2) with false by reflexivity. cbn [andb].
+    destruct (ty =? 5) eqn:E5; [reflexivity|].
+    destruct (find_cluster w c) as [cl|].
+    + destruct (ty =? 7) eqn:E7; [apply Z.eqb_eq in E7; subst ty; reflexivity|].
+      destruct (ty =? 6) eqn:E6; [apply Z.eqb_eq in E6; subst ty; reflexivity|].
+      destruct (ty =? 9) eqn:E9.
+      { apply Z.eqb_eq in E9; subst ty; simpl. destruct (assoc_b _ _); reflexivity. }
+      destruct (ty =? 11) eqn:E11; [apply Z.eqb_eq in E11; subst ty; reflexivity|].
+      destruct (ty =? 8) eqn:E8.
+      { apply Z.eqb_eq in E8; subst ty; simpl. destruct (assoc_b _ _); reflexivity. }
       simpl. reflexivity.
-    + destruct ((sq_type q =? 6) || (sq_type q =? 7) || (sq_type q =? 11)); auto.
-      destruct (sq_type q =? 9); auto. destruct (sq_type q =? 8); auto.
+    + destruct ((ty =? 6) || (ty =? 7) || (ty =? 11)); auto.
+      destruct (ty =? 9); auto. destruct (ty =? 8); auto.
   - intros c g a. unfold eval_ok, world_backend, world_evaluator; simpl.
     destruct (find_cluster w c) as [cl|] eqn:Ec; [|reflexivity].
     destruct (assoc_b (wc_groups cl) g) as [[s fin]|] eqn:Eg; [|reflexivity]. simpl.
@@ -310,29 +743,63 @@ Qed.
 
 Definition example_world : world :=
   [mk_wcluster (pb "c1") [(pb "orders", [10; 20])] [(pb "billing", (3, true))]].
+Definition example_backend : backend := world_backend example_world 0 true.
 
-Example typed_backend_exists : backend_typed (world_backend example_world 0 true).
+Example typed_backend_exists : backend_typed example_backend.
 Proof. apply world_backend_typed. reflexivity. Qed.
 
-(* non-trivial instances of the three envelope theorems on that backend *)
+(* non-trivial instances of the envelope theorems on that backend *)
 Example envelope_example_exists :
-  snd (handle RTopicDetail [(s_cluster, pb "c1"); (s_topic, pb "orders")] 2 (world_backend example_world 0 true) (Node KNil))
+  present RTopicDetail [(s_cluster, pb "c1"); (s_topic, pb "orders")] 2 example_backend (Node KNil) /\
+  snd (handle RTopicDetail [(s_cluster, pb "c1"); (s_topic, pb "orders")] 2 example_backend (Node KNil))
   = Resp 200 true (BJson false true true None).
-Proof. vm_compute. reflexivity. Qed.
+Proof. split; [vm_compute; right; discriminate|vm_compute; reflexivity]. Qed.
 
 Example envelope_example_unknown_topic :
-  snd (handle RTopicDetail [(s_cluster, pb "c1"); (s_topic, pb "nosuch")] 2 (world_backend example_world 0 true) (Node KNil))
+  unknown_full RTopicDetail [(s_cluster, pb "c1"); (s_topic, pb "nosuch")] example_backend (Node KNil) /\
+  snd (handle RTopicDetail [(s_cluster, pb "c1"); (s_topic, pb "nosuch")] 2 example_backend (Node KNil))
   = Resp 404 true (BJson true true true None).
-Proof. vm_compute. reflexivity. Qed.
+Proof. split; [left; vm_compute; reflexivity|vm_compute; reflexivity]. Qed.
 
 Example envelope_example_status :
-  snd (handle RConsumerStatus [(s_cluster, pb "c1"); (s_consumer, pb "billing")] 2 (world_backend example_world 0 true) (Node KNil))
+  snd (handle RConsumerStatus [(s_cluster, pb "c1"); (s_consumer, pb "billing")] 2 example_backend (Node KNil))
   = Resp 200 true (BJson false true true (Some 3))
-  /\ snd (handle RConsumerStatus [(s_cluster, pb "c1"); (s_consumer, pb "nogroup")] 2 (world_backend example_world 0 true) (Node KNil))
+  /\ snd (handle RConsumerStatus [(s_cluster, pb "c1"); (s_consumer, pb "nogroup")] 2 example_backend (Node KNil))
   = Resp 404 true (BJson false true true (Some 0)).
 Proof. split; vm_compute; reflexivity. Qed.
+
+Example envelope_example_module :
+  present RCfgStorageDetail [(s_name, pb "LOCAL")] 2 example_backend f9_cfg /\
+  unknown_full RCfgStorageDetail [(s_name, pb "local.intervals")] example_backend f9_cfg.
+Proof. split; [vm_compute; split; [reflexivity|discriminate]|left; vm_compute; reflexivity]. Qed.
 
 (* an ill-typed backend does crash the handler: the contract is needed *)
 Example untyped_backend_crashes :
   snd (handle RClusterList [] 2 (world_backend example_world 1 true) (Node KNil)) = Crash.
 Proof. vm_compute. reflexivity. Qed.
+
+(* a storage state on which the storage-backed backend is typed and a Fetch drops an expired group *)
+Definition example_cf : Storage.config := Storage.mkConfig 2%nat 10 1 (fun _ => true).
+Definition example_state : Storage.state :=
+  [(1, Storage.mkCluster [] [(7, Storage.mkCgroup [] 1000)])].
+
+Example fetch_drops_expired_example :
+  Storage.step example_cf 100 example_state (Storage.FetchConsumer 1 7)
+  = Storage.Done [(1, Storage.mkCluster [] [])] Storage.RNil /\
+  drops_expired_group example_cf 100 example_state [(1, Storage.mkCluster [] [])] 1 7.
+Proof.
+  split; [vm_compute; reflexivity|].
+  exists (Storage.mkCluster [] [(7, Storage.mkCgroup [] 1000)]), (Storage.mkCgroup [] 1000).
+  repeat split; vm_compute; reflexivity.
+Qed.
+
+Example storage_backend_typed_example :
+  backend_typed (storage_backend (fun _ => 1) (fun _ => []) example_cf 0 example_state
+                                 (fun _ _ _ => Some (mk_gstatus 1 true)) true).
+Proof.
+  apply storage_backend_typed; [|intros; reflexivity].
+  intros c g. unfold Storage.fetch_consumer, example_state. cbn [AMap.get].
+  destruct (1 =? c); [|discriminate]. cbn [Storage.cl_consumer AMap.get].
+  destruct (7 =? g); [|discriminate].
+  destruct (Storage.expired _ _ _); [discriminate|]. cbn. discriminate.
+Qed.
